@@ -53,6 +53,11 @@ def impl(line):
         if op == 'roundtrip':
             p = mk_packet(p_packet(T)); r = mk_rule(p_rule(T)); c = compress(p, r); d = decompress(c, r)
             return f'{show_buf(c)} {show_buf(d)}'
+        if op == 'droundtrip':
+            # the bare functions with the packet's direction passed to both (C18)
+            p = mk_packet(p_packet(T)); r = mk_rule(p_rule(T))
+            c = compress(p, r, direction=p.direction); d = decompress(c, r, direction=p.direction)
+            return f'{show_buf(c)} {show_buf(d)}'
         if op == 'fieldmatch':
             f = mk_field(p_field(T)); rf = mk_rfield(p_rfield(T)); v = _field_match(f, rf)
             return 'true' if v is True else 'false' if v is False else repr(v)
@@ -75,7 +80,7 @@ def impl(line):
             cm = manager(pid, rules)
             c = cm.compress(pk, direction=d, match_strategy=st)
             if op == 'mcompress': return show_buf(c) if c is not None else 'None'
-            dd = cm.decompress(c)
+            dd = cm.decompress(c, direction=d)
             return f'{show_buf(c)} {show_buf(dd)}'
         if op == 'mpcompress':
             # manager logic on an already parsed packet: a parser stub returns the given descriptor
@@ -90,6 +95,9 @@ def impl(line):
         if op == 'mdecompress':
             rules = p_rules(T); s = mk_buf(T.next())
             return show_buf(manager('CoAP', rules).decompress(s))
+        if op == 'mdecompressd':
+            rules = p_rules(T); s = mk_buf(T.next()); d = DirectionIndicator(DIRS[T.next()])
+            return show_buf(manager('CoAP', rules).decompress(s, direction=d))
         if op in ('fcompress', 'fdecompress', 'froundtrip'):
             n = T.nat(); ctxs = [mk_context(p_context(T)) for _ in range(n)]; pk = mk_buf(T.next()); ifc = unesc(T.next())
             schc = front_module().SCHC(contexts=ctxs)
@@ -155,7 +163,7 @@ def oracle(line, out):
             exp = spec.ref_decompress(s[2:], r)
             if err or out[2:] != exp: v.append(('C03', f'decompressed {out} != reference {exp}'))
         if 'total' in meta and err: v.append(('C20', f'decompress raised {err}'))
-    elif op == 'roundtrip':
+    elif op in ('roundtrip', 'droundtrip'):
         p = p_packet(T); r = p_rule(T)
         if 'c01' in meta:
             raw = p['raw'][2:]
@@ -220,7 +228,7 @@ def oracle(line, out):
         if op == 'mroundtrip' and 'c09' in meta:
             if err or out.split(' ')[1][2:] != pk[2:]: v.append(('C09', f'computed fields not regenerated: {out} vs {pk}'))
         if 'default' in meta and err: v.append(('C10', f'default rule present but compress raised {err}'))
-    elif op == 'mdecompress':
+    elif op in ('mdecompress', 'mdecompressd'):
         rs = p_rules(T); s = T.next()[2:]
         if 'total' in meta:
             if err and err != 'RuleIDMatchError': v.append(('C20', f'decompress raised {err}')); v.append(('C15', f'decompress raised {err}'))
@@ -372,6 +380,7 @@ def gen(props, tier, rng):
                     rs = [r]
                     for m in _mutants(rng, s, 6 if q else 12):
                         yield f'schc mdecompress {e_rules(rs)} {m} # total'
+                        if rng.random() < 0.3: yield f"schc mdecompressd {e_rules(rs)} {m} {rng.choice('UD')} # total"
                         yield f'schc decompress {m} {e_rule(r)} # total'
         if 'C03' in props:
             # a mapping residue as the very last bits of the packet, for every small prefix-free index set in every dict order
@@ -424,6 +433,7 @@ def gen(props, tier, rng):
                     yield f'schc mdecompress {e_rules(rs)} {m} # total prefixfree'
                 for _ in range(3 if q else 10):
                     yield f"schc mdecompress {e_rules(rs)} {rng.choice('LR')}:{rulegen.rbits(rng, rng.randrange(0, 2000))} # total prefixfree"
+                    yield f"schc mdecompressd {e_rules(rs)} {rng.choice('LR')}:{rulegen.rbits(rng, rng.randrange(0, 600))} {rng.choice('UD')} # total prefixfree"
     if props & {'C01', 'C15', 'C11'}:
         # SCHC packets that consist of the rule ID only: every field elided, empty payload
         for i in range(20 if q else 200):
@@ -481,7 +491,7 @@ def gen(props, tier, rng):
             pkt = rulegen.gen_generic_packet(rng)
             r = _with_directions(rng, rulegen.derive_rule(rng, pkt, allow_compute=False), pkt, every_position=i)
             for d in 'UD':
-                yield f'schc roundtrip {e_packet(dict(pkt, dir=d))} {e_rule(r)} # c18'
+                yield f'schc droundtrip {e_packet(dict(pkt, dir=d))} {e_rule(r)} # c18'
     if 'C18' in props:
         # rule sets whose rules are each for ONE direction (all descriptors Up-or-Bi / Dw-or-Bi): selection through the manager, both strategies
         for i in range(40 if q else 400):
@@ -656,7 +666,7 @@ def in_domain(domain, line):
     body, meta = split_meta(line)
     t = body.split()
     if domain == 'rule_has_descriptor_not_applicable_to_direction':
-        if t[1] != 'roundtrip' or 'c18' not in meta: return False
+        if t[1] not in ('roundtrip', 'droundtrip') or 'c18' not in meta: return False
         T = Toks(t[2:]); p = p_packet(T); r = p_rule(T)
         return any(not spec.dir_applies(p['dir'], f['dir']) for f in r['fields'])
     return False
